@@ -143,7 +143,7 @@ func (e *env) reader(cs *clientState, br *bufio.Reader) {
 				if cur != nil {
 					hd, _ := parseHdr(cur.data)
 					nh, _ := parseHdr(f.Payload)
-					bad("fragments-interleaved", fmt.Sprintf("a new data message (first frame of writer %d seq %d) started after %d frame(s) of the unfinished message of writer %d seq %d: concurrent WriteMessage calls are interleaved on the wire", nh.Writer, nh.Seq, cur.parts, hd.Writer, hd.Seq))
+					bad("fragments-interleaved", fmt.Sprintf("a new data message (first frame of writer %d seq %d) started after %d frame(s) of the unfinished message of writer %d seq %d: the fragments of one WriteMessage call are not contiguous on the wire (another call's frames cut in, or the remaining fragments were never sent)", nh.Writer, nh.Seq, cur.parts, hd.Writer, hd.Seq))
 					continue
 				}
 				cur = &asm{op: f.Opcode, parts: 1, data: append([]byte(nil), f.Payload...)}
